@@ -217,16 +217,15 @@ func (e *engine2Inst) ctr(letter, seq string) int {
 // respond: one response of sequence seq to host/<both ? orders/items : invoices>.
 // Answer: `A=<tag> B=<tag|-> act=<0|1> ctrA=<0|1> ctrB=<0|1>` (tags sorted by flow, `+`-joined if a flow
 // ran more than one probe).
-func (e *engine2Inst) respond(seq string, both bool, status int) string {
+func (e *engine2Inst) respond(seq, txn string, both bool, status int) string {
 	e.rec.tags = nil
 	url := pathOther
 	if both {
 		url = urlFlowB
 	}
-	api := streamtypes.NewAPIStream("c17b", publictypes.StreamTypeResponse, engineShare)
-	api.SetResponse(streamtypes.NewResponse(lunarMessages.OnResponse{
-		ID: seq + "-x", SequenceID: seq, Method: "GET", URL: url, Status: status, Headers: map[string]string{},
-	}))
+	api := streamtypes.NewResponseAPIStream(lunarMessages.OnResponse{
+		ID: txn, SequenceID: seq, Method: "GET", URL: url, Status: status, Headers: map[string]string{},
+	}, engineShare)
 	acts := &streamconfig.StreamActions{Request: &streamconfig.RequestStream{}, Response: &streamconfig.ResponseStream{}}
 	clk := contextmanager.Get().GetClock()
 	t0 := clk.Now()
